@@ -24,6 +24,7 @@ package cache
 //@ field EntryMetadata.TimeWritten guarded_by immutable
 //@ field MemoryCache.memoryCap guarded_by mu
 //@ field map_map_cache.CacheKey guarded_by mu
+//@ field cacheJanitor.interval guarded_by confined:newCacheJanitor,cacheJanitor.start,cacheJanitor.start$1
 
 // ---------------------------------------------------------------- helpers
 
@@ -42,6 +43,7 @@ package cache
 
 //@ props C12 C01 C14 C15 C16
 //@ func MemoryCache.deleteInternal
+//@   ghost blocks-at 2
 //@   nopanic
 //@   ghost holds shard
 //@   requires specMemInv(c)
@@ -75,8 +77,9 @@ package cache
 // a constructor puts there is verified against the field's contract
 // ("implements"); the janitor is verified against the contracts alone.
 //@ fnfield cacheFunctions.removeEntry(key CacheKey) (err error)
+//@   ghost blocks-at 2
 //@   ghost holds shard
-//@   assigns cache. map_ atomic ghost:mapsum ghost:fsinode ghost:jsize ghost:jexp
+//@   assigns cache.MemoryCache cache.FileCache cache.EntryMetadata cache.memoryInternalEntry map_ atomic.Int64 ghost:mapsum ghost:fsinode ghost:jsize ghost:jexp
 //@   ensures jsize <= old(jsize)
 
 //@ fnfield cacheFunctions.getCacheSize() (size int64)
@@ -84,6 +87,7 @@ package cache
 //@   ensures size == jsize
 
 //@ fnfield cacheFunctions.getCacheLen() (n int)
+//@   ghost blocks-at 2
 //@   pure
 //@   ensures n >= 0
 
@@ -97,7 +101,8 @@ package cache
 //@ func cacheJanitor.evict
 //@   trusted
 //@   ghost callbacks-only
-//@   assigns cache. map_ atomic ghost:mapsum ghost:fsinode ghost:jsize ghost:jexp
+//@   ghost blocks-at 2
+//@   assigns cache.MemoryCache cache.FileCache cache.EntryMetadata cache.memoryInternalEntry map_ atomic.Int64 ghost:mapsum ghost:fsinode ghost:jsize ghost:jexp
 
 // ---------------------------------------------------------------- memory backend: store
 
@@ -107,6 +112,7 @@ package cache
 // the key was already present (overwrite) and when the source reader fails.
 //@ props C12 C01 C09 C14 C15 C16
 //@ func MemoryCache.cacheInternal
+//@   ghost blocks-at 2
 //@   nopanic
 //@   ghost holds shard
 //@   ghost stable specMemInv(c) && c.janitor != nil && c.maxCacheSize.val != nil && c.byteSize.val.v < 4611686018427387904
@@ -155,6 +161,7 @@ package cache
 
 //@ props C12 C01 C14 C15 C16
 //@ func FileCache.ensureRemoveFile
+//@   ghost blocks-at 2
 //@   nopanic
 //@   ghost holds shard
 //@   requires c.byteSize.val != nil
@@ -164,7 +171,7 @@ package cache
 //@   ensures result != nil ==> c.byteSize.val.v == old(c.byteSize.val.v) && fsinode(sid(path)) == old(fsinode(sid(path)))
 //@   ensures forall p int :: p != sid(path) ==> fsinode(p) == old(fsinode(p))
 //@   ensures forall i int :: isize(i) == old(isize(i)) && icontent(i) == old(icontent(i))
-//@   assigns atomic ghost:fsinode
+//@   assigns atomic.Int64 ghost:fsinode
 
 //@ props C12 C01 C14 C15 C16
 //@ func FileCache.ensureRemove
@@ -244,8 +251,9 @@ package cache
 //@ func cacheJanitor.evict
 //@   nopanic
 //@   ghost callbacks-only
+//@   ghost blocks-at 2
 //@   ghost callsite-requires [C13] removeEntry jsize > targetSize
-//@   assigns cache. map_ atomic ghost:mapsum ghost:fsinode ghost:jexp ghost:jsize
+//@   assigns cache.MemoryCache cache.FileCache cache.EntryMetadata cache.memoryInternalEntry map_ atomic.Int64 ghost:mapsum ghost:fsinode ghost:jsize ghost:jexp
 //@   ensures [C13] jsize <= old(jsize)
 //@   ensures [C13] old(jsize) * 5 <= maxCacheBytes * 4 && maxCacheBytes >= 0 && maxCacheBytes <= 1125899906842624 ==> jsize == old(jsize)
 //@   loop 1 invariant forall i int :: 0 <= i && i < len(candidates) ==> candidates[i].meta != nil && allocated(candidates[i].meta)
@@ -266,6 +274,7 @@ package cache
 //@ props C13 C14 C16
 //@ func cacheJanitor.ensureCacheSize
 //@   nopanic
+//@   assigns cache.MemoryCache cache.FileCache cache.EntryMetadata cache.memoryInternalEntry map_ atomic.Int64 ghost:mapsum ghost:fsinode ghost:jsize ghost:jexp
 //@   requires j.cfg != nil && aset(j.cfg.Cache.MaxCacheSize.value)
 //@   ghost callsite-requires getCacheSize true
 
@@ -274,6 +283,7 @@ package cache
 //@ props C13 C14 C15 C16
 //@ func cacheJanitor.cleanExpiredEntries
 //@   nopanic
+//@   assigns cache.MemoryCache cache.FileCache cache.EntryMetadata cache.memoryInternalEntry map_ atomic.Int64 ghost:mapsum ghost:fsinode ghost:jsize ghost:jexp
 //@   ghost callsite-requires [C13] removeEntry jexp(arg_key) < now
 //@   loop 1 invariant len(keysToRemove) >= 0
 //@   loop 2 invariant rangeidx <= len(keysToRemove)
@@ -284,6 +294,7 @@ package cache
 // and keep the backend's invariant (premise of the callback rule).
 //@ props C12 C13 C14 C15 C16
 //@ func NewMemoryCache$4
+//@   ghost blocks-at 2
 //@   implements cacheFunctions.removeEntry
 //@   nopanic
 //@   requires specMemInv(c) && c.byteSize.val.v < 4611686018427387904
@@ -291,6 +302,7 @@ package cache
 
 //@ props C12 C13 C14 C15 C16
 //@ func NewFileCache$5
+//@   ghost blocks-at 2
 //@   implements cacheFunctions.removeEntry
 //@   nopanic
 //@   requires specFileInv(c) && c.byteSize.val.v < 4611686018427387904
@@ -312,3 +324,33 @@ package cache
 //@ props C14 C16
 //@ func cacheJanitor.stop
 //@   nopanic
+
+
+// The iterators handed to the janitor walk a snapshot taken under mu, never the live map.
+//@ props C15 C14 C16
+//@ func NewMemoryCache$3
+//@   nopanic
+//@   ghost callback yield assigns nothing
+//@   requires specMemInv(c)
+//@   loop 1 invariant forall k key :: in(snapshot, k) ==> snapshot[k] != nil
+
+//@ props C15 C14 C16
+//@ func NewFileCache$2
+//@   nopanic
+//@   ghost callback yield assigns nothing
+//@   requires c.entriesMetadata != nil
+
+// The interval listener only hands the new interval to the janitor goroutine.
+//@ props C15 C19 C16
+//@ func newCacheJanitor$1
+//@   nopanic
+
+// The janitor goroutine: every tick runs a cleanup cycle; a changed interval
+// re-arms the ticker with the NEW interval.
+//@ props C13 C15 C14 C16
+//@ func cacheJanitor.start$1
+//@   nopanic
+//@   requires j != nil && j.interval > 0 && j.cfg != nil && aset(j.cfg.Cache.MaxCacheSize.value)
+//@   ghost recv-assume newInterval newInterval > 0
+//@   loop 1 invariant j != nil && j.interval > 0 && j.cfg != nil && aset(j.cfg.Cache.MaxCacheSize.value) && ticker != nil
+//@   loop 1 invariant [C13] tickerival(ticker) == j.interval
